@@ -75,7 +75,10 @@ class PycodeSerializer:
         for tp in types:
             module = tp.__module__
             name = tp.__qualname__
-            if module != "builtins":
+            if module == "datetime":
+                # The repr of date, time, datetime, timezone is module qualified
+                imports.add("import datetime\n")
+            elif module != "builtins":
                 if "." in name:
                     name = name.split(".")[0]
 
